@@ -12,7 +12,7 @@ line grammar (all tokens space separated)
            qguid|qig|qtg|qfg SRC COLL <m> <guid number>*
            qfid SRC COLL <m> <identifier>*
            cqg SRC COLL <child index> <m> <guid number>*        (GeneInterval/FeatureIntervalCollection/... .query_by_guids)
-answer  := ok <start> <end> <n> ( <guid> <g|f|v> <start> <end> <idents|-> <k> ( <guid> <gs> <ge> <=|!> <mseq> )* )* PAR
+answer  := ok <start> <end> <n> ( <guid> <g|f|v> <start> <end> <idents|-> <k> ( <guid> <gs> <ge> <+|-> <=|!> <mseq> )* )* PAR
            children sorted by guid number (set iteration order of the interval-guid queries is not canonical)
            PAR := N | P | W <seq> | K <cs> <ce> <seq>;   mseq := - (no sequence) | ~ (EmptyLocation) | .<spliced sequence>
            `=`: the grand-child's to_dict() equals the source grand-child's to_dict()
@@ -36,6 +36,7 @@ from inscripta.biocantor.io.parser import seq_chunk_to_parent, seq_to_parent
 from inscripta.biocantor.parent.parent import Parent, SequenceType
 
 KINDCH = {"transcript": "g", "feature": "f", "variant": "v"}
+SYM = {Strand.PLUS: "+", Strand.MINUS: "-", Strand.UNSTRANDED: "."}
 UNKNOWN = 999
 
 
@@ -166,7 +167,7 @@ def show_child(c, dicts):
     out = f"{c.guid.int} {KINDCH[c.interval_type.value]} {c.start} {c.end} {ids} {len(gcs)}"
     for g in gcs:
         same = "=" if dicts.get(g.guid.int) == g.to_dict() else "!"
-        out += f" {g.guid.int} {g.start} {g.end} {same} {mseq(g)}"
+        out += f" {g.guid.int} {g.start} {g.end} {SYM[g.strand]} {same} {mseq(g)}"
     return out
 
 
